@@ -573,6 +573,7 @@ type gen struct {
 	kinds  map[string]int
 	prev   [][]string // fields of earlier generated Interests: face name cbp mbf nonce life hop hints tok nhf
 	base   string
+	queue  []string // scripted operations still to be issued
 }
 
 func buildUniverse(r *rand.Rand) []string {
@@ -822,7 +823,89 @@ func (g *gen) setup() []string {
 	return ops
 }
 
+// child returns a universe name exactly one component longer than n ("" if none)
+func (g *gen) child(n string) string {
+	depth := strings.Count(n, "/")
+	if n == "/" {
+		depth = 0
+	}
+	c := []string{}
+	for _, m := range g.names {
+		if m != n && (n == "/" || strings.HasPrefix(m, n+"/")) && strings.Count(m, "/") == depth+1 {
+			c = append(c, m)
+		}
+	}
+	if len(c) == 0 {
+		return ""
+	}
+	return g.pick(c)
+}
+
+func (g *gen) twoNonces() (string, string, string) {
+	a := strconv.FormatUint(uint64(g.nonces[g.r.Intn(len(g.nonces))]), 10)
+	b := g.otherNonce(a)
+	c := a
+	for i := 0; i < 8 && (c == a || c == b); i++ {
+		c = strconv.FormatUint(uint64(g.nonces[g.r.Intn(len(g.nonces))]), 10)
+	}
+	return a, b, c
+}
+
+// scripted multi-step scenarios (timed sequences that a memoryless mix produces too rarely)
+func (g *gen) script() []string {
+	f1 := g.faces[g.r.Intn(len(g.faces))]
+	f2 := g.faces[g.r.Intn(len(g.faces))]
+	n := g.pick(g.hot)
+	a, b, c := g.twoNonces()
+	switch g.r.Intn(3) {
+	case 0:
+		// a long-lived pending Interest on a name, a short-lived one on a child name that expires and is reaped, then Data
+		// without PIT token for the parent
+		ch := g.child(n)
+		if ch == "" {
+			return nil
+		}
+		ops := []string{
+			fmt.Sprintf("int %d %s %s 0 %s 10000 - - - -", f1, n, b01(g.r.Intn(2) == 0), a),
+			fmt.Sprintf("int %d %s 0 0 %s 50 - - - -", f2, ch, b),
+			"sleep 300000000",
+		}
+		for k := 0; k < g.wd.nthr; k++ {
+			ops = append(ops, fmt.Sprintf("tick %d", k))
+		}
+		ops = append(ops, fmt.Sprintf("data %d %s %s -", g.face(), n, g.pick([]string{"-", "1000"})))
+		return ops
+	case 1:
+		// forwarded; retransmitted after the suppression interval (forwarded again); retransmitted inside the new interval
+		// (must be aggregated), from the same and from another face
+		i1 := fmt.Sprintf("int %d %s 0 0 %%s 10000 - - - -", f1, n)
+		return []string{
+			fmt.Sprintf(i1, a), "sleep 600000000", fmt.Sprintf(i1, b), "sleep 100000000", fmt.Sprintf(i1, c),
+			fmt.Sprintf("int %d %s 0 0 %s 10000 - - - -", f2, n, a),
+		}
+	default:
+		// cached Data, answered from the cache, then the same Data again
+		up := g.faces[g.r.Intn(len(g.faces))]
+		return []string{
+			fmt.Sprintf("data %d %s 100000 -", up, n),
+			fmt.Sprintf("int %d %s 0 0 %s - - - %s -", f1, n, a, g.pick([]string{"-", "01070707"})),
+			fmt.Sprintf("data %d %s 100000 -", up, n),
+		}
+	}
+}
+
 func (g *gen) next() string {
+	if len(g.queue) > 0 {
+		op := g.queue[0]
+		g.queue = g.queue[1:]
+		return op
+	}
+	if g.r.Intn(100) < 7 {
+		if sc := g.script(); len(sc) > 0 {
+			g.queue = sc[1:]
+			return sc[0]
+		}
+	}
 	x := g.r.Intn(100)
 	switch {
 	case x < 44:
